@@ -26,7 +26,7 @@ pub fn replay_one(idx: usize, v: &Value, rep: &Report, cnt: &mut Counts, g: &mut
         let xb = mapv(&xs, vals);
         let yb = mapv(&ys, vals);
         // placements: heap at every relative alignment (cycled), guard page ends, guard page starts
-        for place in 0..3 {
+        for place in 0..5 {
             let (mut px, mut py);
             let (x, y): (&[u8], &[u8]) = match place {
                 0 => {
@@ -41,12 +41,34 @@ pub fn replay_one(idx: usize, v: &Value, rep: &Report, cnt: &mut Counts, g: &mut
                     let (a, b) = g.split_at_mut(1);
                     (a[0].at_end(&xb), b[0].at_end(&yb))
                 }
-                _ => {
+                2 => {
                     let (a, b) = g.split_at_mut(1);
                     (a[0].at_start(&xb), b[0].at_start(&yb))
                 }
+                3 => {
+                    // aliasing operands that start at the same address (possible when one is a prefix of the other)
+                    let (long, short) = if xb.len() >= yb.len() { (&xb, &yb) } else { (&yb, &xb) };
+                    if long[..short.len()] != short[..] {
+                        continue;
+                    }
+                    px = Placed::new(long.len(), j % 8, 0xEE);
+                    px.slice_mut().copy_from_slice(long);
+                    let l = px.slice();
+                    (&l[..xb.len()], &l[..yb.len()])
+                }
+                _ => {
+                    // aliasing operands that end at the same address (one is a suffix of the other)
+                    let (long, short) = if xb.len() >= yb.len() { (&xb, &yb) } else { (&yb, &xb) };
+                    if long[long.len() - short.len()..] != short[..] {
+                        continue;
+                    }
+                    px = Placed::new(long.len(), j % 8, 0xEE);
+                    px.slice_mut().copy_from_slice(long);
+                    let l = px.slice();
+                    (&l[l.len() - xb.len()..], &l[l.len() - yb.len()..])
+                }
             };
-            let pname = ["heap", "page-end", "page-start"][place];
+            let pname = ["heap", "page-end", "page-start", "alias-same-start", "alias-same-end"][place];
             let run = json!({"vals": [vals.0, vals.1], "placement": pname});
             let ctx = || json!({"vector": v, "run": run});
             hook::start(&[(x.as_ptr() as usize, x.len()), (y.as_ptr() as usize, y.len())]);
